@@ -111,7 +111,8 @@ def same_source_clause(model, rep, funcs):
                     pose_names.add(x.id)
         for c in feat_calls:
             rep.instance("SAME", f.loc(c))
-            args = list(c.args)
+            from .common import positional_view
+            args = positional_view(model, f, c)
             shift_arg = args[1] if len(args) > 1 else None
             rot_arg = args[2] if len(args) > 2 else None
             ok = True
